@@ -310,11 +310,16 @@ class Context:
                 if setter is not UNDEFINED and setter is not NULL:
                     obj.define_setter(prop_name, setter)
 
-                # Check for value (only if no getter/setter)
+                # A property is either a data or an accessor property: defining one
+                # kind replaces an existing property of the other kind
                 if getter is UNDEFINED and setter is UNDEFINED:
                     value = descriptor.get("value")
                     if value is not UNDEFINED:
+                        obj._getters.pop(prop_name, None)
+                        obj._setters.pop(prop_name, None)
                         obj.set(prop_name, value)
+                else:
+                    obj._properties.pop(prop_name, None)
 
             return obj
 
